@@ -270,10 +270,21 @@ class Case:
                  'min_confirms': minc, 'max_utxos': maxu, 'inputs': mode, 'invalid': invalid}
         err = None
         t = None
+        # (the recipients as (address, amount) pairs or as Output objects; the order of the outputs random or as given)
+        as_objects = rng.random() < 0.3
+        keep_order = as_objects or rng.random() < 0.3
+        if as_objects:
+            from bitcoinlib.transactions import Output as _Output
+            ctx.count('request:recipients-as-output-objects')
         try:
-            t = w.transaction_create([(a, v) for a, v, _ in recs], input_arr=input_arr, fee=fee, number_of_change_outputs=nco, min_confirms=minc, max_utxos=maxu)
+            t = w.transaction_create([(_Output(v, a, network='bitcoin') if as_objects else (a, v)) for a, v, _ in recs], input_arr=input_arr, fee=fee,
+                                     number_of_change_outputs=nco, min_confirms=minc, max_utxos=maxu, **({'random_output_order': False} if keep_order else {}))
         except WalletError as e:
             err = str(e)
+        if t is not None and [o.output_n for o in t.outputs] != list(range(len(t.outputs))):
+            ctx.violation('the outputs of a created transaction are not numbered by their position (a wallet stores them under these numbers)',
+                          {'op': 'txc output numbers', 'kind': self.kind, 'wseed': self.wseed, 'recipients_as_objects': as_objects, 'random_output_order': not keep_order,
+                           'output_numbers': [o.output_n for o in t.outputs]})
         ctx.evals += 1
         ctx.traces += 1
         ctx.count('request:%s:%s' % (mode, 'created' if t is not None else 'refused'))
